@@ -17,6 +17,12 @@ fidelity() {
   VERIF_NEED_REAL=1 VERIF_ENGINES=e1 "$VERIF/tools/build.sh" "$BIN" || exit 2
   "$BIN/e1" fidelity "${VERIF_SELFTEST_N:-400}" "$BIN/gts-real" "${VERIF_SEED:-1}" || rc=2
 }
+tracecheck() {
+  # the unmodified binary under strace: its system calls on cache and temp
+  # files must be the simulator's operations, one by one
+  VERIF_NEED_REAL=1 VERIF_ENGINES=e1 "$VERIF/tools/build.sh" "$BIN" || exit 2
+  "$BIN/e1" tracecheck "${VERIF_SELFTEST_N:-150}" "$BIN/gts-real" "${VERIF_SEED:-1}" || rc=2
+}
 determinism() {
   # the same seeds, executed in separate OS processes under different worker
   # counts and GOMAXPROCS values, must give identical batch digests
@@ -65,9 +71,10 @@ sensitivity() {
 case "$what" in
   simfs) simfs ;;
   fidelity) fidelity ;;
+  tracecheck) tracecheck ;;
   determinism) determinism ;;
   sensitivity) sensitivity ;;
-  all) simfs; fidelity; determinism; sensitivity ;;
+  all) simfs; fidelity; tracecheck; determinism; sensitivity ;;
   *) echo "unknown selftest $what"; exit 2 ;;
 esac
 [ $rc -eq 0 ] && echo "selftest $what: ok"
